@@ -18,6 +18,7 @@ theorem bump_prepare_down_ok (p : BumpProps) (h : Valid false p) :
   simp only at hf ⊢
   clear hdav h
   obtain ⟨hm, hm16, hm16d, ha, ha64, hap, hmp, hs0, he0, hs64, he64, hsz, htr, h16, hr⟩ := hf
+  have hszI : as_isize sz = (sz : Int) := as_isize_small' (by omega)
   simp only [Bool.false_eq_true, ↓reduceIte] at hr
   have hE1 := downAlign_dvd e a
   have hE2 := downAlign_le e a
@@ -42,19 +43,19 @@ theorem bump_prepare_down_ok (p : BumpProps) (h : Valid false p) :
     rcases hr with ⟨h1, h2, h3, h4⟩ | ⟨h1, h2, h3⟩
     · by_cases hcmp : (sz : Int) > ((e - s : Nat) : Int)
       · have : ¬ (s + sz ≤ e) := by omega
-        rs_simp
+        rs_simp [hszI]
         simp only [hcmp, this, ↓reduceIte]
       · have : s + sz ≤ e := by omega
         have := hS4 e hae (by omega)
-        rs_simp
+        rs_simp [hszI]
         simp only [hcmp, ‹s + sz ≤ e›, ↓reduceIte]
     · subst h1
       have : ¬ (e + 16 + sz ≤ e) := by omega
       have h5 : (sz : Int) > -16 := by omega
-      rs_simp
+      rs_simp [hszI]
       simp only [this, h5, ↓reduceIte]
   · simp only [c1, ↓reduceIte]
-    rs_simp
+    rs_simp [hszI]
     generalize hE : Spec.downAlign e a = E at *
     by_cases c2 : (aic && decide (a ≤ 16)) = true
     · simp only [c2, ↓reduceIte]
@@ -64,18 +65,18 @@ theorem bump_prepare_down_ok (p : BumpProps) (h : Valid false p) :
       · have hsE : s ≤ E := hE4 s (Nat.dvd_trans ha16 h3) h1
         by_cases hcmp : (sz : Int) > ((E - s : Nat) : Int)
         · have : ¬ (s + sz ≤ E) := by omega
-          rs_simp
+          rs_simp [hszI]
           simp only [hcmp, this, ↓reduceIte]
         · have : s + sz ≤ E := by omega
           have := hS4 E hE1 hsE
-          rs_simp
+          rs_simp [hszI]
           simp only [hcmp, ‹s + sz ≤ E›, ↓reduceIte]
       · have hEe : E = e := by rw [← hE]; exact downAlign_eq_self (Nat.dvd_trans ha16 h2)
         subst hEe
         subst h1
         have : ¬ (E + 16 + sz ≤ E) := by omega
         have h5 : (sz : Int) > -16 := by omega
-        rs_simp
+        rs_simp [hszI]
         simp only [this, h5, ↓reduceIte]
     · simp only [c2, ↓reduceIte]
       by_cases c3 : E < s
@@ -87,10 +88,10 @@ theorem bump_prepare_down_ok (p : BumpProps) (h : Valid false p) :
           rcases hr with ⟨h1, h2, h3, h4⟩ | ⟨h1, h2, h3⟩ <;> omega
         by_cases hcmp : (sz : Int) > ((E - s : Nat) : Int)
         · have : ¬ (s + sz ≤ E) := by omega
-          rs_simp
+          rs_simp [hszI]
           simp only [hcmp, this, ↓reduceIte]
         · have : s + sz ≤ E := by omega
           have := hS4 E hE1 hsE
-          rs_simp
+          rs_simp [hszI]
           simp only [hcmp, ‹s + sz ≤ E›, ↓reduceIte]
 end Lemmas
